@@ -531,7 +531,10 @@ class Respondent(httping.Parsent):
         if self.length and self.length < 0:
             raise ValueError("Invalid content length of {0}".format(self.length))
 
-        del self.body[:]  # self.body.clear() clear body python2 bytearrays don't clear
+        # new bytearray, body of prior message was given out by reference
+        self.body = bytearray()
+        if self.evented:  # event source parses from body
+            self.eventSource.raw = self.body
         self.parms = None  # not stale from previous message on same connection
         self.trails = None
 
